@@ -6,7 +6,7 @@ every (dtype pair, N) group in a crash-capturing child process."""
 
 import numpy as np
 
-from .. import sandbox
+from .. import sandbox  # noqa
 
 LEVEL = 'exploration'
 RULE = (
@@ -178,6 +178,21 @@ def check(run):
                 run.violation(classify(dict(N=case['N'], kind='crash')), dict(build=build, case=case, returncode=r['returncode'], stderr=r['stderr'][-300:]))
             else:
                 run.note_inconclusive(f'{build} {key}: {r["status"]}')
+    # the helper as used by hod/menv.concat_to_arr (list of neighbour lists, some of them empty)
+    from abacusnbody.hod import menv
+
+    rng = run.rng(5)
+    for t in range(40 if run.quick else 1000):
+        nl = int(rng.integers(1, 30))
+        lists = [[int(x) for x in rng.integers(0, 1000, int(rng.integers(0, 6) if t % 3 else 0 if rng.random() < 0.7 else 3))] for _ in range(nl)]
+        run.ev()
+        res, starts = menv.concat_to_arr(lists)
+        exp_starts = np.concatenate([[0], np.cumsum([len(x) for x in lists])]).astype(np.int64)
+        exp = np.array([x for ell in lists for x in ell], dtype=np.int64)
+        run.nt(('concat_to_arr', t))
+        if not (np.array_equal(starts, exp_starts) and np.array_equal(res, exp)):
+            run.violation('cumsum-in-concat-to-arr', dict(lengths=[len(x) for x in lists], starts=starts.tolist()[:10], expected=exp_starts.tolist()[:10]))
+    run.count('concat_to_arr_calls', 40 if run.quick else 1000)
     run.sample(dict(din='u4', dout='u8', N=3, initial=True, final=True, offset=5, outlen=4, note='example of a grid point'))
     run.sample(cases[0])
     run.sample(cases[-1])
